@@ -111,6 +111,31 @@ def check_config(cfg, w, rep):
         for b, blk, t in chk:
             check_reader_provenance(cfg, w, rep, lf, b, blk, t, rtypes)
 
+    # ---- R6: what is handed out is the file that was verified: every materialising primitive (copy, reflink, hard link) takes
+    #      its source at exactly content_path(<cache>, <integrity>) of its own parameters — the path the verification pass opens —
+    #      and not at something derived from it (read_link / canonicalize of it, a path found by listing ...), which can name a
+    #      different file than the one that was read and checked ----
+    n_mat = 0
+    for e in w.inv.effects:
+        if e.kind not in ("HardLink", "Copy", "Reflink"):
+            continue
+        n_mat += 1
+        c_ = e.classes.get("src")
+        lf_ = prog.owner_fn(e.body)
+        okm = False
+        if isinstance(c_, tuple) and c_ and c_[0] == "Content" and c_[1][0] == "Param" and c_[1][1] == lf_.path:
+            sriarg = c_[2]
+            okm = isinstance(sriarg, tuple) and sriarg and sriarg[0] == "param" and sriarg[1] == lf_.path
+        if okm:
+            rep.ob(cfg, "R6-same-file", "%s:%s" % (fn_key(lf_), e.kind), "`%s` materialises from content_path(cache, sri) of its own parameters" % short(lf_.path))
+        else:
+            from ..effects import class_str as _cs
+            rep.violation("R6:%s:%s" % (fn_key(lf_), e.kind),
+                          "`%s` takes the source of its %s at %s rather than at content_path(<cache>, <integrity>) of its own parameters: the file handed "
+                          "out can be another file than the one the verification pass read" % (short(lf_.path), e.kind, _cs(c_)[:100] if c_ else "?"),
+                          loc=e.loc(), config=cfg, rule="R6-same-file")
+    rep.floor("materialising_effects", n_mat, 4 if flavour == "async" else 3, cfg)
+
     # ---- R3: streaming readers feed the checker exactly what they hand out ----
     n_stream = 0
     for lf in prog.fns.values():
